@@ -283,7 +283,7 @@ def parse(trace, root):
                 if cur is not None:
                     cur.ro_opens += 1
                 continue
-            fdt[ret] = (p, True)
+            fdt[ret] = (p, True, cur)
             emit("O", ret, p, "O_CREAT" in flags, "O_EXCL" in flags, "O_TRUNC" in flags,
                  bool(flags & {"O_WRONLY", "O_RDWR"}), "O_APPEND" in flags)
         elif name == "close":
@@ -292,7 +292,12 @@ def parse(trace, root):
             except ValueError:
                 continue
             ent = fdt.pop(fd, None)     # the descriptor is gone even when close reports an error
-            if ent and ent[1]:
+            # A descriptor opened in an earlier segment and released only now
+            # (a finalizer of the runtime, a deferred close of an earlier
+            # case: when it runs depends on the load of the machine) is not
+            # an operation of this segment's saves: a close changes no name
+            # and no content.
+            if ent and ent[1] and ent[2] is cur:
                 emit("C", fd)
         elif name in ("write", "pwrite64"):
             fd = int(a[0])
